@@ -20,6 +20,7 @@ import (
 
 	"github.com/btcsuite/btcd/blockchain"
 	"github.com/btcsuite/btcd/btcutil/v2"
+	"github.com/btcsuite/btcd/chaincfg/v2"
 	"github.com/btcsuite/btcd/chainhash/v2"
 	"github.com/btcsuite/btcd/txscript/v2"
 	"github.com/btcsuite/btcd/wire/v2"
@@ -387,6 +388,40 @@ func exec1(op string, a []string) string {
 			_ = i
 		}
 		return "r=" + hex.EncodeToString(r1[:]) + " w=" + hex.EncodeToString(w1[:]) + " again=" + b01(again)
+	case "sanity":
+		// CheckBlockSanity on a block whose header, coinbase and transaction
+		// shapes pass every earlier check: observes the merkle root
+		// comparison, the duplicate check and the legacy sigop limit
+		var root chainhash.Hash
+		copy(root[:], unhx(a[0]))
+		ms := parseTxs(a[3])
+		mb := &wire.MsgBlock{Header: sanityHeader(root, uint32(atou(a[1]))), Transactions: ms}
+		blk := btcutil.NewBlock(mb)
+		if a[2] == "1" {
+			var buf bytes.Buffer
+			mb.Serialize(&buf)
+			b2, err := btcutil.NewBlockFromBytes(buf.Bytes())
+			if err != nil {
+				return "undecodable"
+			}
+			blk = b2
+		}
+		err := blockchain.CheckBlockSanity(blk, chaincfg.RegressionNetParams.PowLimit, blockchain.NewMedianTime())
+		if err == nil {
+			return "ok"
+		}
+		code, ok := ruleCode(err)
+		switch {
+		case ok && code == blockchain.ErrBadMerkleRoot:
+			return "err:badMerkle"
+		case ok && code == blockchain.ErrDuplicateTx:
+			return "err:dupTx"
+		case ok && code == blockchain.ErrTooManySigOps:
+			return "err:tooManySigOps"
+		case ok:
+			return "err:other:" + code.String()
+		}
+		return "err:other"
 	case "radd":
 		n := atou(a[0])
 		var roots []chainhash.Hash
@@ -629,6 +664,11 @@ func exec1(op string, a []string) string {
 		return b01(blockchain.SequenceLockActive(sl, int32(atoi(a[2])), time.Unix(atoi(a[3]), 0)))
 	}
 	return "bad-op"
+}
+
+func sanityHeader(root chainhash.Hash, nonce uint32) wire.BlockHeader {
+	return wire.BlockHeader{Version: 1, MerkleRoot: root, Timestamp: time.Unix(1600000000, 0),
+		Bits: 0x207fffff, Nonce: nonce}
 }
 
 type lenWriter struct{ n int }
